@@ -1,7 +1,7 @@
 """pyvc.libs — models of the libraries /repo uses (trusted base T3; validated by selftest/axioms_validate.py)."""
 import z3
 
-from .values import (SNum, SBool, SBytes, Opaque, Obj, Unsupported, CUR, to_term, mk_num, mk_bool, fresh_name)
+from .values import (SNum, SBool, SBytes, Opaque, OpaqueSeq, Obj, Unsupported, CUR, to_term, mk_num, mk_bool, fresh_name)
 from .interp import (PyExc, raise_builtin, BEXC, BCls, Cls, Func, BoundMethod, Builtin, ExtModule, Module, _MISSING)
 from . import strings as S
 from .strings import SStr, Atom
@@ -105,7 +105,13 @@ def install(M):
         fmt, data = a[0], a[1]
         if isinstance(fmt, SStr) or isinstance(fmt, Opaque):
             if it.light:
-                return it.opaque_call('struct.unpack with symbolic format')
+                # '!%dH' % n style repeat counts: a tuple of unknown length, or struct.error
+                if it.branch(z3.Bool(fresh_name('opq_struct_error'))):
+                    raise_builtin('struct.error', 'unpack requires a buffer of the right size')
+                n = z3.Int(fresh_name('unpacked_n'))
+                it.p.assume(n >= 0)
+                it.p.opaque_ops += 1
+                return OpaqueSeq(n, 'struct.unpack with symbolic repeat count', 'tuple')
             raise Unsupported('symbolic struct format')
         if isinstance(data, Opaque):
             return it.opaque_call('struct.unpack of opaque')
@@ -311,6 +317,8 @@ def install(M):
             return MacVal(v)
         if isinstance(v, SNum):
             if not it.branch(z3.And(v.t >= 0, v.t < 2 ** 48)):
+                if it.light:
+                    return it.opaque_call('EUI of a value outside 48 bits')
                 raise Unsupported('EUI outside 48 bits')
             return MacVal(v)
         if isinstance(v, str):
